@@ -15,10 +15,10 @@
 #
 import datetime as dt
 import html
-import traceback
 
 from uberjob.progress._simple_progress_observer import (
     SimpleProgressObserver,
+    format_exception_tuple,
     get_elapsed_string,
     get_scope_string,
     sorted_scope_items,
@@ -133,7 +133,7 @@ class IPythonProgressObserver(SimpleProgressObserver):
             exception_text_widget = self._get("exception_text", i, default=widgets.HTML)
             exception_text_widget.value = (
                 '<pre style="line-height: 120%">{}</pre>'.format(
-                    html.escape("".join(traceback.format_exception(*exception_tuple)))
+                    html.escape(format_exception_tuple(exception_tuple))
                 )
             )
             exception_text_widgets.append(exception_text_widget)
